@@ -2,7 +2,7 @@ import BindgenModel.Model.Util
 import BindgenModel.Model.Depfile
 import BindgenModel.Model.Includes
 import BindgenModel.Generated.DepfileEscape
-/-! Line protocol for C17 (first token `dep`, `inc` or `cargo` is consumed by Main).
+/-! Line protocol for C17 (first token `c17` is consumed by Main; the second selects the sub-model).
 
 Strings travel as lower-case hex of their UTF-8 bytes (`-` = empty string); lists are
 comma-separated (`.` = empty list).
@@ -156,5 +156,13 @@ def handleCargo (toks : List String) : String :=
   | some r, some target, some set, some inputs, some reported =>
     listHex (cargoLines (r == "1") (generateEvents target (fun k => set.contains k) inputs reported))
   | _, _, _, _, _ => "bad-arg"
+
+/-- `c17 dep …` | `c17 inc …` | `c17 cargo …` -/
+def handle (toks : List String) : String :=
+  match toks with
+  | "dep" :: rest => handleDep rest
+  | "inc" :: rest => handleInc rest
+  | "cargo" :: rest => handleCargo rest
+  | _ => "bad-op"
 
 end BindgenModel.Driver.C17
